@@ -81,6 +81,8 @@ class Interp:
             return
         if isinstance(k, bool) or not (isinstance(k, int) or (is_z3(k) and z3.is_int(k))):
             return
+        if is_z3(k):
+            k = z3.simplify(k)          # i + 1 - 1 and i are one index term
         key = str(k)
         terms = ctx.ghost.setdefault("index_terms", {})
         if key in terms:
